@@ -3,6 +3,8 @@ CONSTANTS
   MaxDepth = 2
   Emit = TRUE
   Prop = "C01"
+  Docs <- PoolCore
+  PoolName = "Core"
 INVARIANTS
   Check
 CHECK_DEADLOCK FALSE
